@@ -562,6 +562,188 @@ pub fn track_histories() -> Vec<Vec<AOp>> {
     out
 }
 
+
+// ------------------------------------------------------------------------ pair circuits
+
+/// Every ordered pair (a, b) of `ops` as two consecutive calls, all on ONE fresh thread (2 n^2 calls):
+/// whatever an earlier call leaves behind on the thread (a remembered neighbourhood, a table grown in
+/// some order, a scratch list) meets every later call. Each result must be bitwise equal to the cold
+/// result (the same call as the first call of a fresh thread). Returns (calls, violation).
+pub fn circuit(ops: &[AOp], upto: Option<usize>) -> (u64, Option<Viol>) {
+    let cold: Vec<Res> = ops
+        .iter()
+        .map(|op| {
+            let op = op.clone();
+            in_fresh_thread(move || run_aop(&op))
+        })
+        .collect();
+    let ops2: Vec<AOp> = ops.to_vec();
+    let limit = upto.unwrap_or(usize::MAX);
+    let (calls, bad) = in_fresh_thread(move || {
+        let n = ops2.len();
+        let mut calls = 0usize;
+        for a in 0..n {
+            for b in 0..n {
+                for (slot, i) in [(0usize, a), (1, b)] {
+                    let r = run_aop(&ops2[i]);
+                    calls += 1;
+                    if r != cold[i] {
+                        return (calls, Some((calls, a, b, slot, r, cold[i].clone())));
+                    }
+                    if calls >= limit {
+                        return (calls, None);
+                    }
+                }
+            }
+        }
+        (calls, None)
+    });
+    let v = bad.map(|(k, a, b, slot, r, c)| {
+        viol(
+            "C13/history-changes-result",
+            format!(
+                "call #{} of a pair circuit ({}, {} call of the pair ({}, {})) returns {:x?} on a thread that made the preceding calls but {:x?} as the first call of a fresh thread",
+                k,
+                ops[if slot == 0 { a } else { b }].json(),
+                if slot == 0 { "first" } else { "second" },
+                ops[a].json(),
+                ops[b].json(),
+                trunc(&r),
+                trunc(&c)
+            ),
+            json!({"kind": "circuit", "ops": ops.iter().map(|o| o.json()).collect::<Vec<_>>(), "upto": k}),
+        )
+    });
+    (calls as u64, v)
+}
+
+/// lookup neighbourhoods: a g x g grid over +-1.5 cell sizes around a place, at one resolution; only
+/// the lookups that are NOT answered by their first estimate (hook H1) are kept, i.e. those that run
+/// the probe spiral, the stateful-looking part of the lookup
+pub fn lookup_neighbourhoods(quick: bool) -> Vec<Vec<AOp>> {
+    let f = rg::frame();
+    // places: named ones, plus a lattice across whole faces (towards each of the 5 vertices and 5 edge
+    // midpoints of the face, at several fractions of the way, shifted off the symmetry lines): how
+    // good the first estimate of a lookup is depends on where in the face the point lies
+    let mut places: Vec<(V3, Vec<i32>)> = Vec::new();
+    let all_res: Vec<i32> = if quick { vec![6, 12, 27] } else { vec![3, 6, 9, 12, 16, 20, 24, 27, 29] };
+    for (lon, lat) in [(12.3, 45.6), (-71.9, -12.25)] {
+        places.push((rg::ll_to_vec(lon, lat), all_res.clone()));
+    }
+    if !quick {
+        for (lon, lat) in [(151.2, -33.9), (179.99, 61.0), (40.0, 88.5)] {
+            places.push((rg::ll_to_vec(lon, lat), all_res.clone()));
+        }
+    }
+    let faces: &[usize] = if quick { &[3] } else { &[0, 3, 8, 11] };
+    let fracs: &[f64] = if quick { &[0.1, 0.4, 0.95] } else { &[0.1, 0.3, 0.5, 0.7, 0.9, 0.97] };
+    let mut k = 0usize;
+    for &face in faces {
+        let c = f.centres[face];
+        let targets: Vec<V3> = f.vertices.iter().chain(f.midpoints.iter()).copied().filter(|v| rg::ang(*v, c) < 0.7).collect();
+        for t in &targets {
+            for &fr in fracs {
+                let p = rg::offset(rg::unit(rg::add(rg::scale(c, 1.0 - fr), rg::scale(*t, fr))), 0.013, 0.007);
+                let rs: Vec<i32> = if quick { vec![all_res[k % all_res.len()]] } else { vec![all_res[k % all_res.len()], all_res[(k + 4) % all_res.len()]] };
+                k += 1;
+                places.push((p, rs));
+            }
+        }
+    }
+    let g: usize = if quick { 26 } else { 40 };
+    let mut out = Vec::new();
+    for (p, ress) in &places {
+        for &r in ress.iter() {
+            let sz = geo::cell_size(r);
+            let mut ops = Vec::new();
+            for i in 0..g {
+                for j in 0..g {
+                    let x = ((i as f64 + 0.37) / g as f64 - 0.5) * 3.0 * sz;
+                    let y = ((j as f64 + 0.61) / g as f64 - 0.5) * 3.0 * sz;
+                    let (lon, lat) = rg::vec_to_ll(rg::offset(*p, x, y));
+                    let (res, branch) = subj::lookup_branch(lon, lat, r);
+                    if res.is_ok() && branch != 1 {
+                        ops.push(AOp::Lookup(lon, lat, r));
+                    }
+                }
+            }
+            ops.truncate(if quick { 140 } else { 330 });
+            if ops.len() >= 2 {
+                out.push(ops);
+            }
+        }
+    }
+    out
+}
+
+/// circuits over families of calls that share per-thread or per-resolution state: one point and one
+/// chain of cells at every resolution; hierarchy calls incl. refused ones; Hilbert calls of many depths
+pub fn family_circuits(quick: bool) -> Vec<Vec<AOp>> {
+    let mut out = Vec::new();
+    // (1) one place, every resolution: lookup, centre and ring of the cell found
+    for (lon, lat) in [(12.3, 45.6), (-100.0, -62.0)] {
+        let mut ops = Vec::new();
+        for r in 0..=29 {
+            ops.push(AOp::Lookup(lon, lat, r));
+            if let Ok(c) = subj::lookup(lon, lat, r) {
+                ops.push(AOp::Centre(c));
+                if r % 3 == 0 {
+                    ops.push(AOp::Boundary(c, Some(1)));
+                }
+            }
+        }
+        out.push(ops);
+        if quick {
+            break;
+        }
+    }
+    // (2) hierarchy calls, valid and refused
+    {
+        let base = crate::refcodec::all_cells(0);
+        let q = crate::refcodec::children(base[7])[3];
+        let chain: Vec<u64> = {
+            let mut v = vec![q];
+            let mut c = q;
+            for d in [1usize, 0, 3, 2, 1, 1, 2, 0, 3, 3, 1, 2, 0, 1, 2, 3, 0, 1, 2, 3, 0, 1, 2, 3, 0, 1, 2, 3] {
+                c = crate::refcodec::children(c)[d];
+                v.push(c);
+            }
+            v
+        };
+        let mut ops = vec![AOp::Children(0), AOp::Children(base[2]), AOp::Children(q), AOp::Parent(q), AOp::Parent(1), AOp::Children(1)];
+        for &c in chain.iter().step_by(3) {
+            ops.push(AOp::Children(c));
+            ops.push(AOp::Parent(c));
+            ops.push(AOp::Deser(c));
+        }
+        ops.push(AOp::Uncompact(vec![chain[4], chain[7]], 30)); // refused: no such resolution
+        ops.push(AOp::Uncompact(vec![chain[4], chain[7]], 9));
+        ops.push(AOp::Uncompact(vec![chain[7], chain[4]], 6)); // refused: finer than the target
+        ops.push(AOp::Uncompact(vec![chain[20]], 22));
+        ops.push(AOp::Compact(crate::refcodec::children(chain[6])));
+        ops.push(AOp::Compact(vec![chain[6], 2, chain[3]])); // refused
+        ops.push(AOp::Compact(vec![chain[28], chain[27], chain[3]]));
+        ops.push(AOp::Compact(crate::refcodec::all_cells(1)));
+        out.push(ops);
+    }
+    // (3) Hilbert walks of many depths and all orientations
+    {
+        let mut ops = Vec::new();
+        for n in [1usize, 2, 3, 5, 8, 13, 20, 28] {
+            for o in 0..6u8 {
+                let m = 1u64 << (2 * n.min(31));
+                ops.push(AOp::SToAnchor((m / 3) | 1, n, o));
+                if n <= 13 || !quick {
+                    let side = (1u64 << n) as f64;
+                    ops.push(AOp::IjToS(side * 0.31, side * 0.22, n, o));
+                }
+            }
+        }
+        out.push(ops);
+    }
+    out
+}
+
 fn in_fresh_thread<T: Send + 'static>(f: impl FnOnce() -> T + Send + 'static) -> T {
     std::thread::spawn(f).join().expect("history thread died")
 }
@@ -1342,6 +1524,20 @@ pub fn run(tier: &str, verif_dir: &str) -> Report {
         .collect();
     rep.sink.extend(tv);
     rep.set("track_histories", json!(ntracks));
+    // pair circuits: all ordered pairs of a family of calls on one thread
+    {
+        let mut fams = lookup_neighbourhoods(quick);
+        let nneigh = fams.len();
+        fams.extend(family_circuits(quick));
+        let res: Vec<(u64, Option<Viol>)> = fams.par_iter().map(|ops| circuit(ops, None)).collect();
+        let mut calls = 0u64;
+        for (c, v) in res {
+            calls += c;
+            rep.sink.extend(v.into_iter().collect());
+        }
+        rep.set("pair_circuits", json!({"families": fams.len(), "lookup_neighbourhoods": nneigh, "calls": calls, "largest_family": fams.iter().map(|f| f.len()).max().unwrap_or(0)}));
+        api_hist.fetch_add(fams.iter().map(|f| (f.len() * f.len()) as u64).sum::<u64>(), Ordering::Relaxed);
+    }
     let tn = if quick { 12.min(n) } else { n.min(60) };
     let tsel: Vec<usize> = (0..n).step_by((n / tn).max(1)).take(tn).collect();
     let triples: Vec<Vec<usize>> = tsel.iter().flat_map(|&a| tsel.iter().flat_map(move |&b| (0..n).map(move |c| vec![a, b, c]))).collect();
@@ -1501,6 +1697,11 @@ pub fn run(tier: &str, verif_dir: &str) -> Report {
 fn noop_hook(_p: Point) {}
 
 pub fn replay(case: &Value, verif_dir: &str) -> Vec<Viol> {
+    if case["kind"] == "circuit" {
+        let ops: Vec<AOp> = case["ops"].as_array().map(|a| a.iter().filter_map(AOp::from_json).collect()).unwrap_or_default();
+        let upto = case["upto"].as_u64().map(|x| x as usize);
+        return circuit(&ops, upto).1.into_iter().collect();
+    }
     match case["kind"].as_str().unwrap_or("") {
         "memo_history" => {
             let (ctx, mut v) = memo_setup();
